@@ -3,6 +3,7 @@ package main
 import (
 	"encoding/json"
 	"fmt"
+	"sort"
 	"strings"
 	"time"
 
@@ -284,7 +285,7 @@ func evalC07(cs *c07Case) (vs []*Violation) {
 	site := "ParseHeaders"
 	add := func(rule, class, detail string) {
 		c := mkCase("C07", site, &Cfg{HdrCap: cs.Cap, ValCap: -1, WithVals: cs.WithVal}, block, nil)
-		c.Extra = map[string]any{"case": cs}
+		c.Extra = map[string]any{"case": *cs} // a copy: callers re-use their case variables
 		vs = append(vs, &Violation{Property: "C07", Site: site, Rule: rule, Class: class, Detail: detail, Case: c})
 	}
 	defer recoverTo3(add)
@@ -468,7 +469,9 @@ func checkC07(r *Run) {
 	okSeq := func(a, b hdrLineSpec) bool { return true }
 	_ = okSeq
 	caps := func(n int) []int { return []int{0, 1, n - 1, n, n + 1, -1} }
-	runCase := func(c *enumCtx, cs *c07Case) {
+	runCase := func(c *enumCtx, cs0 *c07Case) {
+		cs1 := *cs0 // own copy: violations keep a pointer to their case and callers re-use theirs
+		cs := &cs1
 		vs := evalC07(cs)
 		c.st.Evals++
 		c.st.Transitions++
@@ -632,6 +635,56 @@ func checkC07(r *Run) {
 			runCase(c, &cc)
 		}
 	})
+	// every ordered pair (and the triples of the lower-case names) of table names, each with a value that is well formed
+	// for its kind, through the library's value store, a declining store and no store: repeated single-instance headers
+	// (a second Content-Length, Expires, From ...) are header lines like any other
+	{
+		var tn []string
+		for n := range hdrTable {
+			tn = append(tn, n)
+		}
+		sort.Strings(tn)
+		var spell []string
+		for _, n := range tn {
+			spell = append(spell, n, strings.ToUpper(n))
+		}
+		spell = append(spell, "X-Other")
+		mkc := func(names ...string) c07Case {
+			var cs c07Case
+			for _, n := range names {
+				v := " " + c16ValueFor(refHdrType([]byte(n)))
+				cs.Lines = append(cs.Lines, hdrLineSpec{n, "", v, "\r\n"})
+				cs.VF = append(cs.VF, valForm{v, 1, len(v)})
+			}
+			cs.Blank = "\r\n"
+			return cs
+		}
+		parallelFor(r, len(spell), func(c *enumCtx, i int) {
+			runAll := func(cs c07Case) {
+				for _, cp := range []int{-1, 1} {
+					cs.Cap = cp
+					cs.WithVal, cs.NilMask = false, 0
+					runCase(c, &cs)
+					cs.WithVal = true
+					runCase(c, &cs)
+					cs.NilMask = 0xff
+					runCase(c, &cs)
+				}
+			}
+			for _, b := range spell {
+				runAll(mkc(spell[i], b))
+			}
+			if i < len(tn) {
+				for _, b := range tn {
+					for _, d := range tn {
+						if tn[i] == b || b == d || tn[i] == d {
+							runAll(mkc(tn[i], b, d))
+						}
+					}
+				}
+			}
+		})
+	}
 	// what follows the block (the first body bytes) does not matter: blanks, line ends, a colon, header look-alikes,
 	// for every blank-line form and terminator (not LF after a lone-CR blank line: that is a CRLF blank line)
 	parallelFor(r, len(red), func(c *enumCtx, i int) {
